@@ -167,9 +167,19 @@ def search(res, tier, seed):
 
 def replay(payload, res):
     c = payload["case"]
-    if isinstance(c["script"], str):
-        print("replay: long-run case, re-run the check")
-        return 0
+    if isinstance(c["script"], str):       # "<n> x fail" / "<n> x ok": thousands of reconnect cycles, bounded pending tasks
+        n, outcome = c["script"].split(" x ")
+        cycles = int(n)
+        script = [(outcome, 0, 1 if outcome == "ok" else None)] * cycles + [("ok", 0, None)]
+        r = vloop.run_scenario(script, threshold=1, sleep_sec=1, max_delay=1, max_iters=10 ** 9)
+        n_att = sum(1 for e in r["events"] if e[2] == "attempt")
+        why = []
+        if r["max_pending"] > 4:
+            why.append(f"{r['max_pending']} pending tasks after {n_att} reconnect cycles")
+        if n_att < cycles:
+            why.append(f"stopped reconnecting after {n_att} attempts")
+        print("REPLAY", "fails: " + "; ".join(why) if why else "passes")
+        return 1 if why else 0
     script = [tuple(x) for x in c["script"]]
     thr, slp, md = c["cfg"]
     r = vloop.run_scenario(script, close_at=c["close_at"], threshold=thr, sleep_sec=slp, max_delay=md)
